@@ -96,6 +96,7 @@ def explore(start_snap, start_dump, oplist, max_leaves, rng=None):
         _APP.restore(start_snap)
         from harness import sched as _sched
         del _sched.INSERTED[:]
+        del _sched.INSERT_BY[:]
         reqs = [(lambda op=op: ops.apply_real(_APP, op)) for op in oplist]
         steps = []       # (chosen, alive_modes before the choice)
 
@@ -130,7 +131,8 @@ def explore(start_snap, start_dump, oplist, max_leaves, rng=None):
             continue
         leaves += 1
         yield {'schedule': [s[0] for s in steps if s[0] is not None], 'responses': res, 'trace': trace,
-               'dump': _APP.dump(), 'rowid_reused': _sched.rowid_reused()}
+               'dump': _APP.dump(), 'rowid_reused': _sched.rowid_reused(),
+               'consumer_creators': sorted({i for (t, i) in _sched.INSERT_BY if t == 'consumers' and i is not None})}
 
 
 def run_with_chooser(reqs, chooser):
@@ -356,7 +358,8 @@ def monitors(props, start_snap, start_dump, oplist, leaf, serial_cache):
                 # who removed the consumer record?  the listed finding is: the request that CREATED the record fails and
                 # removes it in its clean-up although another request has adopted it meanwhile.  A clean-up by a request
                 # that did not create the record is a different defect and must not hide behind that finding.
-                creators = {i for (i, m, st) in leaf['trace'] if ('INSERT', 'consumers') in [tuple(x) for x in st]}
+                creators = set(leaf.get('consumer_creators') or
+                               [i for (i, m, st) in leaf['trace'] if ('INSERT', 'consumers') in [tuple(x) for x in st]][:1])
                 removers = {i for (i, m, st) in leaf['trace'] if ('DELETE', 'consumers') in [tuple(x) for x in st]
                             and not ok(sts[i])}
                 who = 'deleted-by-creator' if removers and removers <= creators else \
@@ -410,9 +413,8 @@ def race_case(args):
                                    'observed_statuses': [r.status if r else None for r in leaf['responses']],
                                    'observed': x['detail'],
                                    'trace': [(i, m, sorted(set('%s.%s' % (s0[0], s0[1]) for s0 in st))) for (i, m, st) in leaf['trace']]}
-                    out['violations'].append(x)
-                if len(out['violations']) > 40:
-                    break
+                    if sum(1 for y in out['violations'] if y['signature'] == x['signature']) < 3:
+                        out['violations'].append(x)
                 continue
             real_steps = [(i, classify(m, st)) for (i, m, st) in leaf['trace'] if m != 'end']
             real_steps = [(i, l) for (i, l) in real_steps if l != 'rcCache']
@@ -445,9 +447,8 @@ def race_case(args):
                                'observed_statuses': [r.status if r else None for r in leaf['responses']],
                                'observed': x['detail'],
                                'trace': [(i, m, sorted(set('%s.%s' % (v0[0], t) for v0, t in [(s, s[1]) for s in st]))) for (i, m, st) in leaf['trace']]}
-                out['violations'].append(x)
-            if len(out['violations']) > 40:
-                break
+                if sum(1 for y in out['violations'] if y['signature'] == x['signature']) < 3:
+                    out['violations'].append(x)
     except Exception:
         out['error'] = traceback.format_exc()
     return out
